@@ -107,15 +107,24 @@ func (fc *fnCtx) instr(in ssa.Instruction) {
 			fc.set(x, &val{k: kIface, t: []string{fmt.Sprint(tag), src.t[0], src.t[1]}})
 		default:
 			// box: fresh object holding the value
-			ref := fc.alloc("box")
+			ref := fc.alloc("box", x.X.Type())
 			fc.store(x.X.Type(), ref, z64, src)
 			fc.set(x, &val{k: kIface, t: []string{fmt.Sprint(tag), ref, z64}})
 		}
 	case *ssa.Alloc:
-		ref := fc.alloc(x.Comment)
+		if fc.promotable(x) {
+			et := x.Type().Underlying().(*types.Pointer).Elem()
+			fc.cells[x] = g.zeroVal(et)
+			fc.set(x, &val{k: kPtr, t: []string{"0", z64}})
+			if fc.allocVars()[x.Comment] {
+				fc.locals[x.Comment] = append(fc.locals[x.Comment], localBind{cell: x, b: fc.curB, isAddr: true, ty: et})
+			}
+			return
+		}
+		ref := fc.alloc(x.Comment, x.Type().Underlying().(*types.Pointer).Elem())
 		pv := &val{k: kPtr, t: []string{ref, z64}}
 		fc.set(x, pv)
-		fc.classAssume(pv, x.Type(), "")
+		fc.classAssume(pv, x.Type(), fc.curR)
 		if !x.Heap {
 			fc.stackRefs = append(fc.stackRefs, ref) // never escapes: no callee can write it
 		}
@@ -128,15 +137,15 @@ func (fc *fnCtx) instr(in ssa.Instruction) {
 		ln, cp := zext(n, 64), zext(c, 64)
 		// checked against 2*MAXLEN so that the global length assumption itself never fails an obligation
 		fc.oblige("makeslice", fc.srcOr(x.Pos(), "call", x.Name()), fmt.Sprintf("(and (bvsle %s %s) (bvsle %s %s) (bvsle %s (bvshl MAXLEN #x0000000000000001)))", z64, ln, ln, cp, cp), x.Pos(), showTerm{"len", ln})
-		ref := fc.alloc("mk")
+		ref := fc.alloc("mk", x.Type().Underlying().(*types.Slice).Elem())
 		sv := &val{k: kSlice, constLen: constOf(ln), t: []string{ref, z64, ln, cp}}
-		fc.classAssume(sv, x.Type(), "")
+		fc.classAssume(sv, x.Type(), fc.curR)
 		fc.set(x, sv)
 	case *ssa.MakeMap, *ssa.MakeChan:
-		ref := fc.alloc("mk")
+		ref := fc.alloc("mk", nil)
 		fc.set(x.(ssa.Value), &val{k: kOpaque, t: []string{ref}})
 	case *ssa.MakeClosure:
-		ref := fc.alloc("clo")
+		ref := fc.alloc("clo", nil)
 		cv := &val{k: kOpaque, t: []string{ref}}
 		cl := &closureInfo{fn: x.Fn.(*ssa.Function)}
 		for _, b := range x.Bindings {
@@ -165,6 +174,7 @@ func (fc *fnCtx) instr(in ssa.Instruction) {
 		switch bt := x.X.Type().Underlying().(type) {
 		case *types.Slice:
 			es = slots(bt.Elem())
+			fc.instantiateAt(idx)
 			fc.oblige("index", fc.srcOr(x.Pos(), "index", x.X.Name()+"["+x.Index.Name()+"]"), fmt.Sprintf("(and (bvsle %s %s) (bvslt %s %s))", z64, idx, idx, base.t[2]), x.Pos(), showTerm{"idx", idx}, showTerm{"len", base.t[2]})
 		case *types.Pointer:
 			arr := bt.Elem().Underlying().(*types.Array)
@@ -203,6 +213,10 @@ func (fc *fnCtx) instr(in ssa.Instruction) {
 	case *ssa.Slice:
 		fc.set(x, fc.slice(x))
 	case *ssa.Store:
+		if a, ok := x.Addr.(*ssa.Alloc); ok && fc.promotable(a) {
+			fc.cells[a] = fc.named(fc.pfx+"cell_"+a.Comment, fc.v(x.Val))
+			return
+		}
 		p := fc.v(x.Addr)
 		if !derivedAddr(x.Addr) {
 			fc.oblige("nil", "*"+fc.addrText(x.Addr)+"=", fmt.Sprintf("(not (= %s 0))", p.t[0]), x.Pos())
@@ -294,7 +308,11 @@ func (fc *fnCtx) instr(in ssa.Instruction) {
 		for _, r := range x.Results {
 			vs = append(vs, fc.v(r))
 		}
-		fc.rets = append(fc.rets, retSite{fc.g.w.srcAt(x.Pos(), "return"), fc.curR, vs, fc.curH.clone(), fc.curAC})
+		cs := map[*ssa.Alloc]*val{}
+		for a, v := range fc.cells {
+			cs[a] = v
+		}
+		fc.rets = append(fc.rets, retSite{cs, fc.g.w.srcAt(x.Pos(), "return"), fc.curR, vs, fc.curH.clone(), fc.curAC})
 	case *ssa.Panic:
 		c := g.w.contractOf(fc.fn)
 		if c != nil && c.panicsWhen != "" && fc.parent == nil {
@@ -446,9 +464,10 @@ func (fc *fnCtx) binop(x *ssa.BinOp) *val {
 			if _, isConst := x.Y.(*ssa.Const); !isConst || B == bv(a.w, 0) {
 				fc.oblige("div0", fc.srcOr(x.Pos(), "binop", x.Name()), fmt.Sprintf("(not (= %s %s))", B, bv(a.w, 0)), x.Pos(), showTerm{"divisor", B})
 			}
-			if _, isConst := x.Y.(*ssa.Const); !isConst && !signed {
-				// division/modulo by a non-constant: uninterpreted with lemma-backed axioms (DESIGN 2.4)
-				return fc.named(x.Name(), &val{k: kInt, w: a.w, signed: signed, t: []string{fc.g.udivmod(x.Op == token.QUO, a.w, A, B)}})
+			if _, isConst := x.Y.(*ssa.Const); !isConst && fc.g.absDivMod {
+				// division/modulo by a non-constant: uninterpreted with instance axioms that are theorems of the
+				// bit-vector operators (DESIGN 2.4)
+				return fc.named(x.Name(), &val{k: kInt, w: a.w, signed: signed, t: []string{fc.g.divmodAbs(x.Op == token.QUO, signed, a.w, A, B)}})
 			}
 			op := map[bool]map[token.Token]string{true: {token.QUO: "bvsdiv", token.REM: "bvsrem"}, false: {token.QUO: "bvudiv", token.REM: "bvurem"}}[signed][x.Op]
 			return res(fmt.Sprintf("(%s %s %s)", op, A, B))
@@ -553,7 +572,7 @@ func (fc *fnCtx) binop(x *ssa.BinOp) *val {
 				return boolv("(not " + fc.strEq(a, b) + ")")
 			case token.ADD:
 				// concatenation: fresh string of the summed length (content not modelled)
-				ref := fc.alloc("cat")
+				ref := fc.alloc("cat", types.Typ[types.Uint8])
 				ln := fc.g.bind("catlen", "(_ BitVec 64)", fmt.Sprintf("(bvadd %s %s)", a.t[2], b.t[2]))
 				fc.g.assume(fmt.Sprintf("(bvsle %s MAXLEN)", ln))
 				return &val{k: kSlice, constLen: -1, t: []string{ref, z64, ln, ln}}
@@ -601,6 +620,14 @@ func (fc *fnCtx) unop(x *ssa.UnOp) *val {
 	a := fc.v(x.X)
 	switch x.Op {
 	case token.MUL: // load
+		if al, ok := x.X.(*ssa.Alloc); ok && fc.promotable(al) {
+			if v, ok := fc.cells[al]; ok {
+				c := *v
+				c.ty = x.Type()
+				return &c
+			}
+			return fc.g.zeroVal(x.Type())
+		}
 		if !derivedAddr(x.X) {
 			fc.oblige("nil", "*"+fc.addrText(x.X), fmt.Sprintf("(not (= %s 0))", a.t[0]), x.Pos())
 		}
@@ -648,7 +675,7 @@ func (fc *fnCtx) convert(src ssa.Value, to types.Type, pos token.Pos) *val {
 					return fc.g.newVal("cv", to)
 				}
 			}
-			ref := fc.alloc("conv")
+			ref := fc.alloc("conv", types.Typ[types.Uint8])
 			if !fc.g.lite {
 				srow := fc.g.bind("srow", rowSort("(_ BitVec 8)"), fmt.Sprintf("(select %s %s)", fc.curH["HB"], a.t[0]))
 				nrow := fmt.Sprintf("(lambda ((o (_ BitVec 64))) (select %s (bvadd %s o)))", srow, a.t[1])
@@ -710,6 +737,10 @@ func (fc *fnCtx) slice(x *ssa.Slice) *val {
 	if x.Max != nil {
 		mx = zext(fc.v(x.Max), 64)
 	}
+	if x.Low != nil && lo != z64 && !isLiteral(lo) {
+		top := fc.topCtx()
+		top.sliceLos = append(top.sliceLos, lo)
+	}
 	trivial := x.Low == nil && x.High == nil && x.Max == nil
 	if !trivial {
 		fc.oblige("slice", fc.srcOr(x.Pos(), "slice", x.X.Name()+"[:]"), fmt.Sprintf("(and (bvsle %s %s) (bvsle %s %s) (bvsle %s %s) (bvsle %s %s))", z64, lo, lo, hi, hi, mx, mx, cp), x.Pos(),
@@ -747,7 +778,27 @@ func (fc *fnCtx) slice(x *ssa.Slice) *val {
 // memory
 
 func (fc *fnCtx) load(t types.Type, ref, off string) *val {
+	// store-to-load forwarding: the same cell was written last and the heaps involved have not changed since
+	if v, ok := fc.fwd[fc.fwdKey(t, ref, off)]; ok && !fc.g.lite {
+		c := *v
+		c.ty = t
+		return &c
+	}
 	return fc.loadH(fc.curH, t, ref, off, fc.curR)
+}
+
+func (fc *fnCtx) fwdKey(t types.Type, ref, off string) string {
+	var sb strings.Builder
+	for _, k := range kindsOf(t) {
+		sb.WriteString(fc.curH[k])
+		sb.WriteByte('|')
+	}
+	sb.WriteString(ref)
+	sb.WriteByte('|')
+	sb.WriteString(off)
+	sb.WriteByte('|')
+	sb.WriteString(t.String())
+	return sb.String()
 }
 
 func (fc *fnCtx) loadH(h heap, t types.Type, ref, off string, guard string) *val {
@@ -800,6 +851,7 @@ func (fc *fnCtx) loadH(h heap, t types.Type, ref, off string, guard string) *val
 	case *types.Pointer:
 		pv := &val{k: kPtr, ty: t, t: []string{sel(h["HPr"], ref, off), sel(h["HPo"], ref, off)}}
 		fc.classAssume(pv, t, guard)
+		gimp(fmt.Sprintf("(and (> %s (- %d)) (bvsle %s %s) (bvslt %s MAXLEN))", pv.t[0], strRefBase, z64, pv.t[1], pv.t[1]))
 		return pv
 	case *types.Slice:
 		v := &val{k: kSlice, constLen: -1, ty: t, t: []string{sel(h["HSr"], ref, off), sel(h["HSo"], ref, off), sel(h["HSl"], ref, off), sel(h["HSc"], ref, off)}}
@@ -899,6 +951,13 @@ func (fc *fnCtx) store(t types.Type, ref, off string, v *val) {
 		fc.g.unmodelled["store:"+t.String()]++
 	}
 	fc.nameHeaps()
+	switch v.k {
+	case kInt, kFloat, kBool, kPtr, kSlice, kIface, kArr:
+		if fc.fwd == nil {
+			fc.fwd = map[string]*val{}
+		}
+		fc.fwd[fc.fwdKey(t, ref, off)] = v
+	}
 }
 
 // nameHeaps binds long heap terms to fresh constants
@@ -911,12 +970,23 @@ func (fc *fnCtx) nameHeaps() {
 	}
 }
 
-func (fc *fnCtx) alloc(tag string) string {
+// alloc returns a fresh object; only the heap kinds that hold scalars of type t are zero-initialised (the others are
+// never read at this object by type safety), which keeps the untouched heap arrays syntactically stable.
+func (fc *fnCtx) alloc(tag string, t types.Type) string {
 	g := fc.g
 	ref := g.declare(g.freshName(fc.pfx+"new_"+tag), "Int")
 	g.assume(fmt.Sprintf("(= %s %s)", ref, fc.curAC))
 	fc.curAC = g.bind("AC", "Int", fmt.Sprintf("(+ %s 1)", fc.curAC))
+	zero := map[string]bool{"GL": true}
+	if t != nil {
+		for _, k := range kindsOf(t) {
+			zero[k] = true
+		}
+	}
 	for _, hk := range g.heapKinds() {
+		if !zero[hk.name] {
+			continue
+		}
 		fc.curH[hk.name] = fmt.Sprintf("(store %s %s ((as const %s) %s))", fc.curH[hk.name], ref, rowSort(hk.sort), hk.zero)
 	}
 	fc.nameHeaps()
